@@ -641,6 +641,14 @@ func TestC04(t *testing.T) {
 				rt.Fatalf("C04 violated by %v after the same operator instance served %v: %s", c, other, d)
 			}
 		}
+		if len(c.ins) >= 2 && rapid.IntRange(0, 5).Draw(rt, "sharedParams") == 0 {
+			if od, ok := otherDataLike(rt, c.ins[0]); ok {
+				ev.Class("C04", "instance-and-parameter-tensors-served-another-data-tensor")
+				if d := reuseSharedParams(c.op, c.node, od, cloneTs(c.ins)); d != "" {
+					rt.Fatalf("C04 violated by %v: %s", c, d)
+				}
+			}
+		}
 		if rapid.IntRange(0, 4).Draw(rt, "modelLevel") == 0 {
 			mres := runSingleNodeModel(c.node, cloneTs(c.ins), 1)
 			ev.Class("C04", "model-level")
